@@ -337,7 +337,7 @@ def leave (r : Realm) (k : SessKey) (mode : LeaveMode) : Realm :=
       let (b, sends, n) := r.broker.syncRemoveSession k r.pubCount
       { r with broker := b, pubCount := r.pubCount + n }.deliver sends
   let r :=
-    if isShutdown || killAll then r else
+    if isShutdown then r else
       let ts := match tst with
         | some b => (b.detached ++ b.destroyed).map (fun t => Task.metaPub (testamentPub t))
         | none => []
@@ -615,8 +615,7 @@ def metaProc (r : Realm) (proc : String) (req : Nat) (details : Dict) (args : Li
     | some x =>
       if proc == MetaProcSubGet then (mYield req [subDetailsDict x], r)
       else if proc == MetaProcSubListSubscribers then
-        if x.members.isEmpty then (mErr req ErrNoSuchSubscription, r)
-        else (mYield req [.list (x.members.map sidVal)], r)
+        (mYield req [.list (x.members.map sidVal)], r)
       else (mYield req [.int x.members.length], r)
   else if proc == MetaProcEventHistory then
     match args with
